@@ -1,21 +1,103 @@
-ADD_ONLY = True
-NOTES = ("All checks are bounded: every claim is 'for all symbolic inputs inside the stated bounds'; "
-         "bounds, stubs and assumptions are listed per harness in the evidence files and in DESIGN.md.")
+ADD_ONLY = False  # two hooks cfg-split an existing line (LruManager key_map -> BTreeMap under cfg(kani); retry::sleep cfg attribute); all others only add code
+NOTES = ("All checks are bounded model checking of the REAL code (Kani 0.68 -> CBMC 6.11 -> CaDiCaL): every claim is "
+         "'for all symbolic inputs inside the stated bounds'; bounds, stubs, scale models and assumptions are listed per "
+         "harness in the evidence files (coverage.samples[*].bounds, assumptions) and in DESIGN.md. Counterexamples are "
+         "replayed natively (Kani concrete playback, dev + release) before a VIOLATION is printed; genuine defects that were "
+         "not repaired are listed in known_findings.json and printed as KNOWN-FINDING lines.")
 
-CLAIMED["C09"] = dict(
-    text="Bounded model checking of the real cipher/hash code against reference models written from the published "
-         "algorithms: the SAT solver decides equality for every key/IV/seed/message inside the stated length bounds "
-         "(no sampling). Bounded, hence model_checking, not proof.",
-    note="Trusted: Kani/CBMC/CaDiCaL, the reference models in harnesses/crypto/src/refmodels.rs, UF abstraction of ARX "
-         "kernels (each kernel separately proved equal to its spec on arbitrary words). Lengths above the bounds are outside the claim.",
-    design_ref="DESIGN.md §5 C09")
+_T = "bounded model checking of the compiled Rust code: Kani 0.68 symbolic execution -> CBMC 6.11 -> CaDiCaL SAT verdict over symbolic inputs; counterexamples replayed natively"
 
-_TODO = "check not built yet in this revision (planned: DESIGN.md §5); not claimed until its harnesses run"
-for _p in ["C01","C02","C03","C05","C06","C07","C08","C14","C16","C17","C18","C19","C20"]:
-    NA[_p] = _TODO
+
+def _c(pid, text, note, ref=None, technique=None):
+    CLAIMED[pid] = dict(text=text, note=note, design_ref=ref or f"DESIGN.md §5 {pid}", technique=technique or _T)
+
+
+_c("C01",
+   "Bounded model checking of BLTE builder programs (concrete sequences of builder calls, all payload bytes / keys / IVs "
+   "symbolic) against the identity oracle decode(encode(x)) == x and chunk-table truthfulness; ciphers abstracted as an "
+   "uninterpreted keystream so that the decisive fact is whether builder and decoder use the same (key, IV, block index).",
+   "Modes N and E only (zlib/LZ4 codecs outside); payloads of a few bytes; cipher = UF keystream (justified by C09); "
+   "serialise->parse->decode only where stated per harness.")
+_c("C02",
+   "Bounded model checking of the parsers on arbitrary byte strings of fixed small lengths: Kani's automatic panic / "
+   "overflow / out-of-bounds checks plus unwinding assertions (termination) plus an allocator spy (largest request <= 64*N + 64 KiB) "
+   "decide 'fails closed' for every input of the stated lengths.",
+   "Record/header-level parsers of cascette-formats and the storage-side byte parsers; whole-file binrw parsers and text formats "
+   "(configs, BPSV, ESpec, MIME) are outside (binrw::Error drop glue does not terminate in CBMC); input lengths as listed per harness.")
+_c("C03",
+   "Bounded model checking of the lookup kernels (encoding table find/batch, CDN archive index binary search / TOC, root header "
+   "version heuristics) against linear-scan oracles on directly constructed structures with fully symbolic keys, assuming the "
+   "representation invariant that a second harness shows the builders establish.",
+   "2-3 pages x 1-2 entries, <= 6 archive entries with scaled records-per-chunk; TVFS and ContentResolver outside; two root-header "
+   "findings recorded in known_findings.json.")
+_c("C05",
+   "Bounded model checking of the local index (IndexManager + update section) and ResidencyDb as maps: concrete operation-kind "
+   "sequences with all data symbolic, compared step by step with a 'latest value per key' model, plus one-step/record-level harnesses.",
+   "Histories of a few steps, 3-4 key alphabet in one bucket; update section scaled under cfg(kani) (2 pages x 2 entries); save_index "
+   "replaced by an Ok/Err model; reload from real files outside.")
+_c("C06",
+   "The real save routines run symbolically over an I/O trace model of std::fs; the solver decides, for every input inside the bounds, "
+   "the atomic-replace protocol invariants I1-I4 (data only to the temp file, complete + fsynced before rename, nothing written after, "
+   "no in-place write), which imply old-or-new at every crash point under POSIX rename atomicity and fsync durability.",
+   "Covers IndexManager::write_index_to_file (quick) and ResidencyDb::save (thorough); crash points are discharged by the protocol "
+   "argument in DESIGN.md, not enumerated; I/O error paths, save_index's retry loop, LRU checkpoint and DiskCache (tokio) are outside.",
+   technique="bounded model checking of the real save code over a stubbed std::fs I/O-trace model (Kani/CBMC SAT verdict on protocol invariants)")
+_c("C07",
+   "Bounded model checking under an ideal-hash model (uninterpreted injective function in place of MD5/Jenkins): for every valid "
+   "artifact and every symbolic single-byte corruption of the protected region the real validator must reject.",
+   "Artifacts: update entries, local headers, LRU files, residency entries, encoding page digest, archive-index footer; MIME checksum and "
+   "validating caches (tokio/DashMap) outside; genuine hash collisions excluded by the idealisation.")
+_c("C08",
+   "Bounded model checking of read/write pairs at record level: for every symbolic byte string the reader accepts, write(read(b)) "
+   "re-reads to the same fields and is a fixed point; read(write(v)) == v for symbolic field values.",
+   "Record/header level only (sizes as listed); whole-file round trips, configs/BPSV/ESpec, TVFS tables outside.")
+_c("C09",
+   "Bounded model checking of the real cipher/hash code against reference models written from the published algorithms: the SAT "
+   "solver decides equality for every key/IV/seed/message inside the stated length bounds (no sampling). ARX kernels are proved "
+   "equal to their specification on arbitrary words and abstracted as uninterpreted functions in the skeleton harnesses.",
+   "Trusted: Kani/CBMC/CaDiCaL, the reference models in harnesses/crypto/src/refmodels.rs; lengths above the bounds (61 bytes quick, "
+   "132 thorough for lookup3; vector-width + tail for SIMD helpers) are outside; MD5 core (third-party md-5 crate) trusted, only the key glue is checked.")
+_c("C14",
+   "Bounded model checking of the real RetryPolicy::execute state machine driven by a minimal executor with a virtual clock "
+   "(cfg(kani) sleep recorder): symbolic policy (incl. arbitrary f64 multipliers) and symbolic outcome sequences; assertions on "
+   "attempt count, stop conditions, and every recorded delay.",
+   "max_attempts <= 3 (quick) / 5 (thorough); jitter draw symbolic in [0,0.3); from_env string parsing and the CDN status mapping as listed per harness.")
+_c("C16",
+   "Bounded model checking of ZBSDIFF build->apply on all (old,new) pairs of the stated small lengths with symbolic bytes: "
+   "apply(old, build(old,new)) == new for the builders, memory patcher == streaming patcher, and result length == header size or Err "
+   "for arbitrary symbolic patch components.",
+   "zlib wrappers stubbed to identity; lengths <= 3-6 bytes; suffix-array builder as stated per harness.")
+_c("C17",
+   "Bounded model checking of LruManager histories (every history up to the stated length over touch / remove / evict_tail / "
+   "evict_to_target / bump_generation / reset, keys from a 4-key alphabet incl. the all-zero key) against a textbook LRU model and "
+   "the structural invariant of the intrusive list; lru_file serialize/deserialize round trip and the is_active partition.",
+   "Capacities 1-3, length <= 3 (quick) / 4 (thorough); key map is a BTreeMap under cfg(kani) (hook H6: same map contract); tokio-based "
+   "checkpoint/load/run_cycle outside; two all-zero-key findings recorded in known_findings.json; one defect fixed (59baa81).")
+_c("C18",
+   "Bounded model checking of validate_spans (quadratic overlap oracle), plan_archive_merge (plan safety assertions over symbolic "
+   "segment populations) and the compaction file movers over an in-memory file model.",
+   "<= 4 spans / segments; segment_size and threshold from a concrete grid in quick; I/O buffer scaled under cfg(kani); ArchiveManager::compact outside.")
+_c("C19",
+   "Bounded model checking of the tag bit kernel (MSB-first specification, every file index of masks up to 9 bytes), builder mask "
+   "re-packing on remove_file (fully symbolic masks across byte boundaries), all-of / any-of / size queries and the download priority "
+   "arithmetic against set / clamp models.",
+   "Mask sizes and file counts concrete per harness (symbolic heap sizes do not finish); queries on 1 file in quick (2 in thorough); "
+   "builder constructed through a cfg(kani) shim without the name HashMap.")
+_c("C20",
+   "Bounded model checking of the path/URL construction kernels on short symbolic strings: no panic for any content-key length, "
+   "lexically normalised cache paths stay under the configured directory, accepted endpoints cannot escape.",
+   "Strings of a few bytes over a small alphabet; format!-based typed-key formatting as listed per harness; real I/O outside.")
+
 NA["C04"] = "storage path = memmap2 + DashMap + parking_lot/tokio locks + async; constructing them aborts kani-compiler 0.68 (TLS-destructor ICE) and mmap has no model; no separable kernel"
 NA["C10"] = "MemoryCache (DashMap) and DiskCache (tokio Semaphore/RwLock) abort kani-compiler (ICE, probed); eviction arithmetic is not a separate function; no other installed engine executes Rust symbolically"
 NA["C11"] = "interleavings of concurrent tasks: Kani/CBMC's Rust front end is sequential; same ICE as C10"
 NA["C12"] = "MultiLayerCacheImpl hard-wires the C10 cache types as layers; unreachable for the same reason"
 NA["C13"] = "reqwest/TCP/tokio timeouts/DashMap-backed ProtocolCache; the only pure piece (should_retry) is checked under C14"
 NA["C15"] = "axum/TCP server + format!-built text + mail-parser client: sockets not encodable, string formatting of arbitrary DB strings beyond the SAT back end"
+
+# properties whose harnesses are not (yet) all green are kept out of the manifest until their quick tier passes
+PENDING = ["C01", "C05", "C07", "C08", "C14", "C16", "C18", "C20"]
+for _p in PENDING:
+    if _p in CLAIMED:
+        del CLAIMED[_p]
+        NA[_p] = "check under construction in this revision (harnesses exist under /verif/harnesses but the quick tier has not been validated end to end); not claimed until it runs green"
